@@ -33,6 +33,7 @@ def gen_case(streams, tier):
     big = tier == 'thorough' and g.random() < 0.3
     cfg = gen.make_cfg(nets=(3, 40) if big else (3, 22))
     script = gen.gen_script(g, cfg)
+    script, stage = gen.maybe_stage(g, script, 0.2, ['sim', 'fast', 'export', 'analysis', 'optimized_copy', 'copy'])
     ncyc = streams['inputs'].randint(1, 12)
     case = {
         'prop': ID,
@@ -43,6 +44,7 @@ def gen_case(streams, tier):
         'sched': world.gen_sched(streams),
         'dut_is_working': g.random() < 0.3,
         'second_instance': g.random() < 0.2,
+        'stage': stage,
     }
     f = streams['faults']
     if f.random() < 0.3:
@@ -57,7 +59,7 @@ def run(case, res):
     init = case['init']
     sched = case['sched']
     world.setup_world(sched)
-    b = world.build_dut(script, sched)
+    b = world.build_dut(script, sched, stage=world.stage_with_hook(case.get('stage'), res))
     if case.get('dut_is_working'):
         pyrtl.set_working_block(b.block, no_sanity_check=True)
     ref = world.ref_for(script, init)
